@@ -27,7 +27,8 @@ RULE = ("simulated elections with per-contest shortfalls none / one / all differ
 REQUIRED = ["contract:CVR.make_phantoms", "accounting_checked:style", "accounting_checked:no_style", "phantoms_created",
             "zero_shortfall_after_positive_shortfall", "bounds_unspecified", "worstcase_pairs", "phantom_mvr_strictly_lower",
             "phantom_cvr_pairs", "phantom_cvr_with_votes_pairs", "second_call_on_same_input_list", "shortfalls_all_different",
-            "pool_means_with_phantoms_checked", "pool_means_with_phantoms_checked:assorter_bound_not_1", "assorter:plurality", "assorter:supermajority", "assorter:irv"]
+            "pool_means_with_phantoms_checked", "pool_means_with_phantoms_checked:assorter_bound_not_1",
+            "audit_wide_max_cards_differs_from_stratum_bound", "assorter:plurality", "assorter:supermajority", "assorter:irv"]
 ASSUMPTIONS = ["card bounds >= number of CVRs listing the contest; input lists contain no phantoms",
                "a phantom labelled pooled inside a pooled batch is scored with that batch's mean by design (C03 depends "
                "on it): the 1/2 clause is asserted for unpooled phantom CVRs"]
@@ -153,6 +154,8 @@ def run_case(es, rec):
         return
     CVR = sim.L["CVR"]
     lowered = 0
+    if es.get("audit_max_cards") is not None and es["audit_max_cards"] != es["max_cards"]:
+        rec.count("audit_wide_max_cards_differs_from_stratum_bound")
     # the same call again on the caller's own list (a notebook cell re-run, a revised bound): the contract checks the
     # accounting and the uniqueness of identifiers again - nothing of the first call may have leaked into the input
     if len(sim.real_list) <= len(es["cards"]) + 0 or True:
